@@ -14,11 +14,17 @@
  *   s<hexptr>=<jvtext>   json_pointer_set(&root, ptr, value)
  *   S T U V E <hexptr>=<jvtext>   json_pointer_setf(&root, value, fmt, ...) in the shapes of
  *                        G H I J D
- * Observation per op:  <rc> <errno> <id> <typed dump of the whole tree after the op>
- *   id of a get: the location of the returned node = the first node in document order
- *   whose address is the returned pointer, written r(.k<hexkey|->|.i<index>)*; NULL when the
- *   returned pointer is NULL (a JSON null target); OUTSIDE when it is not in the tree; - on
- *   failure and for set.
+ *   A lookup op prefixed with 'n' (ng…, nG…) passes res == NULL (documented: existence test).
+ * Observation per op:  <rc> <errno> <var> <typed dump of the whole tree after the op>
+ *   <var> of a lookup = the caller's result variable after the call; it is preset to the
+ *   address of a sentinel node before the call:
+ *     after a success: the location of the node now in it = the first node in document order
+ *       with that address, written r(.k<hexkey|->|.i<index>)*; NULL for the NULL pointer (a
+ *       JSON null target); OUTSIDE when it is not in the tree; UNSET when it still holds the
+ *       sentinel;
+ *     after a failure: kept when it still holds the sentinel, CLOBBERED otherwise;
+ *     noarg when res == NULL was passed.
+ *   <var> of a set = the root handle *obj after the call: same | new (a different pointer).
  * Last step:  END <live allocations after everything was released>.
  * Ownership: after a failed set the value still belongs to the caller, who releases it
  * (a value wrongly kept by the library then shows as a double free / use after free). */
@@ -66,11 +72,20 @@ static int find_node(struct json_object *cur, struct json_object *want, struct p
 	return 0;
 }
 
+/* what the caller's result variable holds before a lookup: the address of a node that is not
+ * part of any tree (never dereferenced) */
+static struct json_object *sentinel_node(void)
+{
+	static struct json_object dummy;
+	return &dummy;
+}
+
 static void print_id(struct json_object *root, struct json_object *res)
 {
 	static char *buf;
 	struct pathbuf pb;
 	if (!res) { printf("NULL"); return; }
+	if (res == sentinel_node()) { printf("UNSET"); return; }
 	if (!buf) buf = (char *)(malloc)(IDBUF);
 	pb.s = buf;
 	pb.s[0] = 'r'; pb.s[1] = 0; pb.n = 1;
@@ -183,19 +198,27 @@ void run_case(char *rest)
 	if (perr || *tp) { printf("BADTREE"); json_object_put(root); return; }
 	xa_limit = PTR_ALLOC_LIMIT;
 	for (tok = strtok_r(ops, ";", &save); tok; tok = strtok_r(NULL, ";", &save)) {
-		char kind = tok[0];
+		int noarg = (tok[0] == 'n');
+		char kind;
 		int rc, err;
+		if (noarg) tok++;
+		kind = tok[0];
 		switch (kind) {
 		case 'g': case 'G': case 'H': case 'I': case 'J': case 'D': {
 			char *p = cstr_of_hex(tok + 1);
-			struct json_object *res = (struct json_object *)(uintptr_t)0x10;   /* never a node */
+			struct json_object *res = sentinel_node();      /* the caller's default */
+			struct json_object **resp = noarg ? NULL : &res;
+			struct json_object *handle = root;
 			errno = 0;
-			if (kind == 'g') rc = json_pointer_get(root, p, &res);
-			else rc = call_f(0, get_shape(kind), &root, &res, NULL, p);
+			if (kind == 'g') rc = json_pointer_get(root, p, resp);
+			else rc = call_f(0, get_shape(kind), &root, resp, NULL, p);
 			err = errno;
 			(free)(p);
 			printf("%d %s ", rc, rc < 0 ? errno_name(err) : "0");
-			if (rc == 0) print_id(root, res); else putchar('-');
+			if (root != handle) printf("ROOTCHANGED");
+			else if (noarg) printf(res == sentinel_node() ? "noarg" : "CLOBBERED");
+			else if (rc == 0) print_id(root, res);
+			else printf(res == sentinel_node() ? "kept" : "CLOBBERED");
 			break; }
 		case 's': case 'S': case 'T': case 'U': case 'V': case 'E': {
 			char *eq = strchr(tok, '=');
@@ -211,13 +234,19 @@ void run_case(char *rest)
 			val = jv_parse(&vp, &verr);
 			xa_limit = PTR_ALLOC_LIMIT;
 			if (verr || *vp) { printf("BADVALUE"); (free)(p); json_object_put(val); json_object_put(root); return; }
+			struct json_object *handle = root;
+			if (noarg) { printf("BADOP"); (free)(p); json_object_put(val); json_object_put(root); return; }
 			errno = 0;
 			if (kind == 's') rc = json_pointer_set(&root, p, val);
 			else rc = call_f(1, set_shape(kind), &root, NULL, val, p);
 			err = errno;
 			(free)(p);
-			if (rc < 0) json_object_put(val);       /* still ours */
-			printf("%d %s -", rc, rc < 0 ? errno_name(err) : "0");
+			if (rc < 0) {
+				/* the value is still ours; so is the old root should the handle have moved */
+				if (root != handle && root == val) root = handle;
+				json_object_put(val);
+			}
+			printf("%d %s %s", rc, rc < 0 ? errno_name(err) : "0", root == handle ? "same" : "new");
 			break; }
 		default:
 			printf("BADOP"); json_object_put(root); return;
